@@ -1,5 +1,6 @@
 import Orca.Lemmas.SemSim
 import Orca.Lemmas.SemBranch
+import Orca.Lemmas.SpecialFlat
 /-!
 # C18 — block entry probes fire on every entry into the block
 
@@ -61,5 +62,16 @@ example : (match run [] false [] 50 (lowerL [] exLoop) exSt with | .normal s => 
 def exIf : List Instr :=
   [ .op [] [] (.const 1), .ite [] { entry := [1001] } { entry := [1002] } 0 "if" [.op [] [] .nop] [.op [] [] .nop] true ]
 example : (match run [] false [] 50 (lowerL [] exIf) exSt with | .normal s => s.trace | _ => [0]) = [1001] := by decide
+
+/-- the flat-code statement for M3, the transcription of the resolver (every body; `Lemmas/SpecialFlat.lean`): a block-entry probe
+    on a `block` / `loop` / `if` is encoded right behind the opening instruction -/
+theorem c18_flat_block_entry_placed (f : Orca.Lower.Func) (pre rest : List Orca.Lower.Instr) (sel : Orca.Lower.Instr) (pr : List Orca.Lower.Tok)
+    (hbody : f.body = pre ++ sel :: rest) (hrne : rest ≠ [])
+    (hsp : f.hasSpecial = true) (hentry : f.entry = []) (hexit : f.exit = [])
+    (hpre : ∀ x ∈ pre, Orca.Lower.Clean x) (hrest : ∀ x ∈ rest, Orca.Lower.Clean x) (hsel : Orca.Lower.OnlyEntry sel pr)
+    (hk : sel.kind = .block ∨ sel.kind = .loop ∨ sel.kind = .if_)
+    (n n2 : Nat) (hd1 : Orca.Lower.depthAfter pre 1 = some n) (hd2 : Orca.Lower.depthAfter rest (n + 1) = some n2) :
+    Orca.Lower.lower f = (Orca.Lower.toks pre ++ [sel.tok] ++ pr ++ Orca.Lower.toks rest, f.added) :=
+  Orca.Lower.blockEntry_placed f pre rest sel pr hbody hrne hsp hentry hexit hpre hrest hsel hk n n2 hd1 hd2
 
 end Orca.Sem
